@@ -22,6 +22,7 @@ import numpy as np
 from sim.machine import Machine, Result
 from sim.seeds import Streams, derive
 from sim import compare as C
+from sim import shadow
 
 _Q = {}
 
@@ -190,8 +191,8 @@ class C01(Machine):
 
     def lru_configs(self, tier):
         if tier == "thorough":
-            return ["default", "1", "2", "8", "inf", "off"]
-        return ["default", "2", "off"]
+            return ["default", "1", "2", "8", "inf", "off", "shadow"]
+        return ["default", "2", "off", "shadow"]
 
     def budget(self, tier):
         if tier == "thorough":
@@ -381,10 +382,12 @@ class C01(Machine):
         objs = {}
         records = []
         sig = []
+        shadow.reset()
         try:
             for step, op in enumerate(run["ops"]):
                 R.steps += 1
                 k = op["op"]
+                self._shadow_events(R, step, objs)
                 if k in ("build", "discard"):
                     if k == "discard":
                         cls = objs[op["obj"]]["spec"].name
@@ -494,14 +497,39 @@ class C01(Machine):
                     st["since"] = []
                     st["muts"].append(mu.name)
                     R.trace.append((step, "m", mu.name))
+            self._shadow_events(R, len(run["ops"]), objs)
+            shadow.STATE["enabled"] = False
+            if shadow.STATE["installed"]:
+                h, nd = shadow.take_counts()
+                R.probe("shadow_hits_reevaluated", h)
+                if nd:
+                    R.probe("shadow_nondeterministic_method", nd)
             # ---------------- phase 2: judge every recorded query
             for rec in records:
                 self._judge(R, rec, tdir)
         finally:
             objs.clear()
+            shadow.reset()
             shutil.rmtree(base, ignore_errors=True)
         R.opsig = C.digest_of(repr(sig))
         return R.as_dict()
+
+    def _shadow_events(self, R, step, objs):
+        """Shadow configuration: hits whose re-evaluation differs."""
+        for e in shadow.drain():
+            if e["kind"] != "stale":
+                R.probe("shadow_edited_left_to_C06")
+                continue
+            muts = sorted({m_ for st in objs.values()
+                           for m_ in st.get("muts", [])})
+            R.probe("shadow_stale_hit")
+            R.violate(
+                f"{self.pid}|{e['cls']}|shadow|{e['method']}",
+                f"before step {step}: {e['qual']}{e['args']} was served from "
+                f"the cache although re-evaluating it on the object as it is "
+                f"now gives another value ({e['why']}); mutators so far: "
+                f"{muts}",
+                victim=f"{e['cls']}|shadow:{e['method']}")
 
     @staticmethod
     def _with_write_cut(R, cut, f, *a):
